@@ -106,8 +106,95 @@ func runC16(o *cli.Opts, run *evid.Run) {
 			c16Deletion(run, r, key, i)
 		}
 	})
+	c16Partial(o, run)
 	for _, c := range []string{"ins/roundtrip", "del/roundtrip", "ins/foreign-style", "del/foreign-style", "ins/must-reject", "del/must-reject", "ins/bad-index", "del/bad-index"} {
 		run.Require("cases in class "+c, run.ClassTally(c).Cases, 100)
+	}
+}
+
+// c16Partial: a sequential stream alternating complete documents with documents in which one key is
+// absent. The outcome of decoding a document must depend on that document alone: an absent number must
+// not silently take a value (in particular not one left over from an earlier decode), an absent index may
+// only be rejected or read as 0.
+func c16Partial(o *cli.Opts, run *evid.Run) {
+	n := o.Pick(1500, 20000)
+	for i := 0; i < n; i++ {
+		key := fmt.Sprintf("C16/partial/%d", i)
+		if !run.Wants(key) {
+			continue
+		}
+		r := gen.RNG(o.Seed, key)
+		batch, depths := 1+r.Intn(3), []int{}
+		for j := 0; j < batch; j++ {
+			depths = append(depths, 2)
+		}
+		ins := i%2 == 0
+		var full map[string]any
+		if ins {
+			p := &ref.InsParams{InputHash: gen.NonZeroElem(r, ref.R), StartIndex: 1 + uint32(r.Intn(1<<30)), Pre: gen.NonZeroElem(r, ref.R), Post: gen.NonZeroElem(r, ref.R), Ids: c16Values(r, batch)}
+			for _, d := range depths {
+				p.Proofs = append(p.Proofs, c16Values(r, d))
+			}
+			full = ref.InsDoc(p, "hex")
+		} else {
+			p := &ref.DelParams{InputHash: gen.NonZeroElem(r, ref.R), Pre: gen.NonZeroElem(r, ref.R), Post: gen.NonZeroElem(r, ref.R), Ids: c16Values(r, batch)}
+			for j := 0; j < batch; j++ {
+				p.Indices = append(p.Indices, 1+uint32(r.Intn(1<<30)))
+			}
+			for _, d := range depths {
+				p.Proofs = append(p.Proofs, c16Values(r, d))
+			}
+			full = ref.DelDoc(p, "hex")
+		}
+		// a complete document first (this is what may leave state behind) …
+		decode := func(text []byte) (any, error) {
+			if ins {
+				var v prover.InsertionParameters
+				err := json.Unmarshal(text, &v)
+				return &v, err
+			}
+			var v prover.DeletionParameters
+			err := json.Unmarshal(text, &v)
+			return &v, err
+		}
+		if _, err := decode(ref.MustJSON(full)); err != nil {
+			run.Violate(key+"/full", "a complete well-formed document is rejected: "+err.Error(), nil)
+			continue
+		}
+		// … then the same document with one key removed
+		fields := []string{"inputHash", "preRoot", "postRoot"}
+		if ins {
+			fields = append(fields, "startIndex")
+		}
+		f := fields[r.Intn(len(fields))]
+		part := map[string]any{}
+		for k, v := range full {
+			if k != f {
+				part[k] = v
+			}
+		}
+		if r.Intn(4) == 0 {
+			part = map[string]any{} // the empty object
+			f = "all keys"
+		}
+		v, err := decode(ref.MustJSON(part))
+		ok := true
+		if err == nil {
+			if f == "startIndex" {
+				if got := v.(*prover.InsertionParameters).StartIndex; got != 0 {
+					ok = false
+					run.Violate(key+"/"+f, fmt.Sprintf("a document without startIndex decodes to startIndex=%d (a value carried over from an earlier decode)", got), map[string]any{"doc": trunc(string(ref.MustJSON(part)))})
+				}
+			} else {
+				ok = false
+				run.Violate(key+"/"+f, fmt.Sprintf("a document with %s absent decodes without error (the absent number silently took a value)", f), map[string]any{"doc": trunc(string(ref.MustJSON(part)))})
+			}
+		}
+		mode := "del"
+		if ins {
+			mode = "ins"
+		}
+		run.Case(mode+"/absent-key", true, key, ok && err == nil, map[string]any{"absent": f, "rejected": err != nil})
 	}
 }
 
